@@ -196,6 +196,22 @@ class Writer:
                 f"(in {segment_addresses_str})."
             )
 
+        if data_length % 2 == 1:
+            raise FlipJumpWriteFjmException(
+                f"data-length must be even (an integer number of ops), got {data_length} (in {segment_addresses_str})."
+            )
+
+        if segment_start < 0 or segment_start + segment_length >= (1 << 64):
+            raise FlipJumpWriteFjmException(
+                f"the segment's start and end must be 64-bit word-addresses (in {segment_addresses_str})."
+            )
+
+        if data_start < 0 or data_length < 0 or data_start + data_length > len(self.data):
+            raise FlipJumpWriteFjmException(
+                f"segment data range [{data_start}, {data_start + data_length}) exceeds the data added so far "
+                f"({len(self.data)} words) (in {segment_addresses_str})."
+            )
+
         self._validate_segment_not_overlapping(segment_start, segment_length, data_start, data_length)
 
         if self.version in (FJMVersion.RelativeJumpVersion, FJMVersion.CompressedVersion):
@@ -209,6 +225,9 @@ class Writer:
         @param data: [in]: a list of words
         @return: the data start index
         """
+        for word in data:
+            if word < 0 or word >= (1 << self.word_size):
+                raise FlipJumpWriteFjmException(f"data word {word} doesn't fit in {self.word_size} bits.")
         data_start = len(self.data)
         self.data += data
         return data_start
